@@ -870,10 +870,12 @@ def putQual (ep : String) (a : Args) (r : Req) : M Resp := do
     else if qt ≠ t ∧ AList.has t e.quals then liftR (raiseOf ep 0)
     else do
       let sm' := smWithRoot sm (modifyAt (fun x => x.withQuals (AList.erase qt x.quals ++ [(t, v)])) sm.root path)
+      -- `if qualifier_type_changed:` 201 + Location, else 200
+      let resp := if qt ≠ t then mkResp ep 0 r (some (.qual a.smId (pathOpt a) t)) (fun _ => .item (.qual t v))
+                  else mkResp ep 1 r none (fun _ => .item (.qual t v))
       live a.smId sm'
       commitObj (commitsOf ep) a.smId sm'
-      if qt ≠ t then pure (mkResp ep 0 r (some (.qual a.smId (pathOpt a) t)) (fun _ => .item (.qual t v)))
-      else pure (mkResp ep 1 r none (fun _ => .item (.qual t v)))
+      pure resp
   | _, _ => liftR (.py .unknownClass)
 
 def deleteQual (ep : String) (a : Args) (r : Req) : M Resp := do
@@ -924,8 +926,11 @@ def handlerOf (ep : String) (a : Args) (r : Req) : Option (M Resp) :=
   | "delete_submodel_submodel_elements_id_short_path" => some (deleteElem ep a r)
   | "get_submodel_submodel_element_qualifiers" => some (getQual ep a r)
   | "post_submodel_submodel_element_qualifiers" => some (postQual ep a r)
-  | "put_submodel_submodel_element_qualifiers" => some (putQual ep a r)
-  | "delete_submodel_submodel_element_qualifiers" => some (deleteQual ep a r)
+  -- likewise `url_args["qualifier_type"]`
+  | "put_submodel_submodel_element_qualifiers" =>
+    (match a.qType with | some _ => some (putQual ep a r) | none => none)
+  | "delete_submodel_submodel_element_qualifiers" =>
+    (match a.qType with | some _ => some (deleteQual ep a r) | none => none)
   | "get_concept_description_all" => some (listObjs ep .cd r)
   | "post_concept_description" => some (postObj ep .cd r)
   | "get_concept_description" => some (getObj ep a.cdId .cd r)
